@@ -42,44 +42,44 @@ type l1Profile struct {
 }
 
 type pendingTx struct {
-	Msgs    []sdk.Msg // more than one message: an atomic multi-message transaction
-	Msg     sdk.Msg
-	Bytes   []byte
-	Kind    string
-	LowGas  bool
-	Fault   string
-	Desc    string
+	Msgs   []sdk.Msg // more than one message: an atomic multi-message transaction
+	Msg    sdk.Msg
+	Bytes  []byte
+	Kind   string
+	LowGas bool
+	Fault  string
+	Desc   string
 }
 
 type l1World struct {
-	r    *core.Run
-	p    *l1Profile
-	db   *dbm.MemDB
-	n    *node.L1
-	m    *modelL1
-	enc  node.Encoding
-	users []sdk.AccAddress
-	ustr  []string
-	denoms []string
-	now   time.Time
-	univ  map[uint64][]withdrawal
-	wseq  map[uint64]uint64
-	commits map[prover.Hash]*commitment
-	chans []permChan
-	prevDig map[string][32]byte
-	succ  map[string]int // successful ops by kind
-	paid  map[string]int // bridge/leaf -> successful finalisations
-	avoidKnown bool
-	lastRes *abci.ResponseFinalizeBlock
-	ownAll   bool // C16 after a re-import: every deviation from the model is a deviation from the original chain
-	replicas []*l1Replica
-	recent   [][]byte // recently broadcast transactions (client traffic re-uses them)
-	avoidBridge uint64 // see pickBridge
-	burstTail   bool   // the last operation of a burst block: a deletion somewhere in the long log
-	burstBridge uint64 // while non-zero every generated operation is an output proposal for this bridge (long logs)
-	lenient  bool     // deviations owned by other properties are logged, not fatal (state comparison right after a genesis restart)
-	sidePct  int      // % of schedule points with client traffic on discarded branches
-	genesis  *node.L1Genesis
+	r           *core.Run
+	p           *l1Profile
+	db          *dbm.MemDB
+	n           *node.L1
+	m           *modelL1
+	enc         node.Encoding
+	users       []sdk.AccAddress
+	ustr        []string
+	denoms      []string
+	now         time.Time
+	univ        map[uint64][]withdrawal
+	wseq        map[uint64]uint64
+	commits     map[prover.Hash]*commitment
+	chans       []permChan
+	prevDig     map[string][32]byte
+	succ        map[string]int // successful ops by kind
+	paid        map[string]int // bridge/leaf -> successful finalisations
+	avoidKnown  bool
+	lastRes     *abci.ResponseFinalizeBlock
+	ownAll      bool // C16 after a re-import: every deviation from the model is a deviation from the original chain
+	replicas    []*l1Replica
+	recent      [][]byte // recently broadcast transactions (client traffic re-uses them)
+	avoidBridge uint64   // see pickBridge
+	burstTail   bool     // the last operation of a burst block: a deletion somewhere in the long log
+	burstBridge uint64   // while non-zero every generated operation is an output proposal for this bridge (long logs)
+	lenient     bool     // deviations owned by other properties are logged, not fatal (state comparison right after a genesis restart)
+	sidePct     int      // % of schedule points with client traffic on discarded branches
+	genesis     *node.L1Genesis
 }
 
 var simEpoch = time.Date(2026, 1, 1, 0, 0, 0, 0, time.UTC)
@@ -254,7 +254,15 @@ func (w *l1World) genMetadata() []byte {
 		}
 		return "[" + strings.Join(xs, ",") + "]"
 	}
-	switch w.r.Weighted([]int{8, 2, 1, 1, 1, 1, 1, 1, 1, 1, 1}) {
+	switch w.r.Weighted([]int{8, 2, 1, 1, 1, 1, 1, 1, 1, 1, 1, 1, 1}) {
+	case 11:
+		// the same document with the key written with a JSON escape (every JSON parser reads perm_channels)
+		return []byte(`{"perm\u005fchannels":` + list() + `}`)
+	case 12:
+		// one channel id listed under both ports, a value written with an escape
+		c := w.chans[w.r.Intn(len(w.chans))]
+		esc := strings.Replace(c.Channel, "-", "\\u002d", 1)
+		return []byte(fmt.Sprintf(`{"perm_channels":[{"port_id":"transfer","channel_id":%q},{"port_id":"nft-transfer","channel_id":"%s"}]}`, c.Channel, esc))
 	case 0:
 		return []byte(`{"perm_channels":` + list() + `}`)
 	case 1:
@@ -497,6 +505,10 @@ func (w *l1World) genOp(spec *modelL1, bc blockCtx) (sdk.Msg, string, string) {
 		}
 		signer := w.pickSigner(b.Cfg.Proposer, spec.Gov)
 		md := w.genMetadata()
+		if w.r.Chance(1, 5) {
+			// the operator's tooling re-submits the metadata the bridge already has, byte for byte
+			md = append([]byte{}, b.Cfg.Metadata...)
+		}
 		return &ophosttypes.MsgUpdateMetadata{Authority: signer, BridgeId: id, Metadata: md}, k, fmt.Sprintf("bridge=%d by=%s md=%q", id, short(signer), string(md))
 	case "oracleCfg":
 		id := w.pickBridge(spec, false)
@@ -907,7 +919,7 @@ func (w *l1World) pickTime() time.Time {
 					continue
 				}
 				dl := o.L1Time.Add(b.Cfg.FinalizationPeriod)
-				if dl.Add(2*time.Second).Before(now) {
+				if dl.Add(2 * time.Second).Before(now) {
 					continue
 				}
 				if !found || dl.Before(best) || w.r.Chance(1, 4) {
@@ -1370,7 +1382,6 @@ func (w *l1World) acctKind(addr []byte) string {
 	}
 	return "other"
 }
-
 
 // specApply applies a transaction speculatively (generator side): atomic.
 func (w *l1World) specApply(spec *modelL1, msgs []sdk.Msg, bc blockCtx) {
